@@ -77,6 +77,9 @@ func quiesce(cond func() bool) bool {
 
 type subT = pubsub.Subscription
 
+// abandoned counts the histories of this process in which a call other than Next never returned
+var abandoned int
+
 type call struct {
 	id     int
 	op     M
@@ -192,6 +195,7 @@ func runConc(t *testing.T, out *vh.Out, n *node, s scenario, rep int) {
 			case <-time.After(5 * time.Second):
 			}
 			out.Emit(M{"e": "abandoned", "scn": scn})
+			abandoned++
 			return
 		}
 		for _, c := range calls {
@@ -290,6 +294,10 @@ func TestX09Conc(t *testing.T) {
 			n := newNode(t, h, s.Cfg, names)
 			runConc(t, out, n, s, rep)
 			n.stop()
+		}
+		if abandoned >= 8 {
+			out.Emit(M{"e": "giveup", "at": i, "abandoned": abandoned})
+			break
 		}
 	}
 }
